@@ -572,6 +572,11 @@ ASMJIT_FAVOR_SIZE Error FormatterInternal::format_operand(
       }
       ASMJIT_PROPAGATE(sb.append_format(" %u", m.shift()));
     }
+    else if (m.has_index() && !m.is_pre_or_post() && m.shift_op() != ShiftOp::kLSL) {
+      // An extend operator without an amount (`[x1, w2, uxtw]` vs `[x1, w2, sxtw]`) still selects the instruction.
+      ASMJIT_PROPAGATE(sb.append(' '));
+      ASMJIT_PROPAGATE(format_shift_op(sb, m.shift_op()));
+    }
 
     if (!m.is_post_index()) {
       ASMJIT_PROPAGATE(sb.append(']'));
